@@ -604,7 +604,7 @@ func (q *QueryRangeService) Tail(ctx context.Context, query string) (model.IWatc
 						continue
 					}
 					if e.Err != nil {
-						onErr(e.Err, res.GetRes())
+						logger.Error(e.Err)
 						return
 					}
 					if i == 0 || lastFp != e.Fingerprint {
